@@ -58,3 +58,43 @@ Lemma javascript_old_refuted_lemma :
   js_result_old true JsGetterThrows = JsPanicEscapes /\ js_result_old true JsCyclic = JsFatal
   /\ js_result JsGetterThrows = JsErr /\ js_result JsCyclic = JsErr.
 Proof. repeat split; reflexivity. Qed.
+
+(* ---- duplicated top level keys (N9) ---- *)
+Lemma nodup_fold_unique : forall root a b, nodup_fold root = true ->
+  In a root -> In b root -> m_fold a = m_fold b -> a = b.
+Proof.
+  induction root as [|m r IH]; intros a b Hn Ha Hb Hf; [destruct Ha|].
+  simpl in Hn. apply andb_true_iff in Hn as [Hm Hr]. apply negb_true_iff in Hm.
+  assert (Hno : forall x, In x r -> m_fold x <> m_fold m).
+  { intros x Hx E. assert (existsb (fun y => Nat.eqb (m_fold y) (m_fold m)) r = true) as Hc.
+    { apply existsb_exists. exists x. split; [exact Hx|apply Nat.eqb_eq; exact E]. }
+    congruence. }
+  destruct Ha as [<-|Ha], Hb as [<-|Hb]; try reflexivity.
+  - exfalso. apply (Hno b Hb). symmetry. exact Hf.
+  - exfalso. apply (Hno a Ha). exact Hf.
+  - apply IH; assumption.
+Qed.
+
+Theorem dup_keys_validated_lemma : forall root name fname,
+  (forall m, In m root -> m_exact m = name -> m_fold m = fname) ->
+  section_accepted schema_validate_checks_top_level_keys name root = true ->
+  forall m, In m (loaded fname root) -> m_valid m = true.
+Proof.
+  intros root name fname Hfold Hacc m Hm.
+  unfold section_accepted in Hacc. apply andb_true_iff in Hacc as [Hseen Hnd].
+  change (nodup_fold root = true) in Hnd.
+  destruct (seen name root) as [s|] eqn:Es; [|discriminate].
+  unfold seen in Es. apply find_some in Es as [Hin Hex]. apply in_rev in Hin. apply Nat.eqb_eq in Hex.
+  unfold loaded in Hm. apply filter_In in Hm as [Hmin Hmf]. apply Nat.eqb_eq in Hmf.
+  assert (m = s) as ->.
+  { apply (nodup_fold_unique root); try assumption. rewrite Hmf. symmetry. apply Hfold; assumption. }
+  exact Hseen.
+Qed.
+
+(* "file_declaration" (valid) followed by "FILE_DECLARATION" (rows 0): without the check the
+   section is accepted and the invalid member is loaded *)
+Lemma dup_keys_old_refuted_lemma :
+  let root := [mkM 1 1 true; mkM 2 1 false] in
+  section_accepted false 1 root = true /\ existsb (fun m => negb (m_valid m)) (loaded 1 root) = true
+  /\ section_accepted true 1 root = false.
+Proof. vm_compute. repeat split; reflexivity. Qed.
